@@ -48,3 +48,38 @@ let () =
           let (l, s, _) = List.nth evs k in
           mismatch l s (Printf.sprintf "slice job %s: event %d is not enabled in the model (or observed a value the model does not predict)" !tag k)));
     buf := [])
+
+(* ---------------- batch slice (coq/SliceBatch.v) ---------------- *)
+let bbuf : (int * string * M.braw option) list ref = ref []
+
+let braw_of (a : string list) : M.braw option =
+  match a with
+  | ["bnew"; n] -> Some (M.RB (M.BNew (nat n)))
+  | ["bcloseempty"] -> Some (M.RB M.BCloseEmpty)
+  | ["bload"; t; v] -> Some (M.RB (M.BLoad (nat t, nat v)))
+  | ["bdoneload"; t; v] -> Some (M.RBDoneLoad (nat t, nat v))
+  | ["bdonecas"; t; ok] -> Some (M.RBDoneCas (nat t, b ok))
+  | ["bwgdone"; t] -> Some (M.RB (M.BWgDone (nat t)))
+  | ["bsend"; t] -> Some (M.RB (M.BSend (nat t)))
+  | ["bclose"; t] -> Some (M.RB (M.BClose (nat t)))
+  | ["brecv"; t; ok] -> Some (M.RB (M.BRecv (nat t, b ok)))
+  | ["bwait"; t] -> Some (M.RB (M.BWait (nat t)))
+  | _ -> None
+
+let () =
+  register "BATCH" (fun _ _ a -> (match a with t :: _ -> tag := t | _ -> ()); bbuf := []);
+  register "b" (fun ln line a -> bbuf := (ln, line, braw_of a) :: !bbuf);
+  register "ENDBATCH" (fun ln line _ ->
+    let evs = List.rev !bbuf in
+    incr checked;
+    (match List.find_opt (fun (_, _, r) -> r = None) evs with
+     | Some (l, s, _) -> mismatch l s ("slice batch " ^ !tag ^ ": operation on the batch counter / stream unknown to the model")
+     | None ->
+       let raws = List.filter_map (fun (_, _, r) -> r) evs in
+       (match M.brun_t raws with
+        | M.Inr _ -> ()
+        | M.Inl i ->
+          let k = int_of_nat i in
+          let (l, s, _) = List.nth evs k in
+          mismatch l s (Printf.sprintf "slice batch %s: event %d is not enabled in the model (or observed a value the model does not predict)" !tag k)));
+    bbuf := [])
